@@ -54,6 +54,12 @@ def _ident(I, st, fid, bi, a, c, t):
     return a[0]
 
 
+@model('<core::mem::manually_drop::ManuallyDrop<T> as core::ops::deref::DerefMut>::deref_mut', '<core::mem::manually_drop::ManuallyDrop<T> as core::ops::deref::Deref>::deref')
+def _md_deref(I, st, fid, bi, a, c, t):
+    # ManuallyDrop<T> is a transparent wrapper: &mut ManuallyDrop<T> -> &mut T at the same address
+    return a[0]
+
+
 @model('core::ptr::non_null::NonNull::<T>::as_ref', 'core::ptr::non_null::NonNull::<T>::as_mut')
 def _nn_as_ref(I, st, fid, bi, a, c, t):
     p = deref(I, st, a[0])
